@@ -1,5 +1,6 @@
 """C16 — hard-coded secret, temp-path, bind-all, permission checks match patterns."""
 import re
+import json
 import common as C
 
 LEVEL = "proof"
@@ -181,6 +182,24 @@ def run(res, ctx):
                 diff = C.compare_scan(real2[i], model2[i], C.blacklist_ids())
                 if diff:
                     res.break_("correspondence", {"program": s.decode(), "diff": diff})
+        # a settings section that does not mention tmp_dirs keeps the default directories (found by tools/mutation: the `"tmp_dirs" in config` guard and
+        # the default assignment could be mutated without any check noticing)
+        for cfgv in ({}, {"other_option": 1}):
+            cfgfile3 = scratch.fresh("c3.yaml", yaml.safe_dump({"hardcoded_tmp_directory": cfgv, "skips": []}).encode())
+            srcs3 = [b"a = '/tmp/x'\n", b"a = '/var/tmp/y'\n", b"a = '/dev/shm/z'\n", b"a = '/scratch/x'\n", b"a = 'tmp'\n"]
+            exps3 = [True, True, True, False, False]
+            real3 = C.batch_real_scan(scratch, srcs3, config_file=cfgfile3)
+            model3 = d.ask_many([C.scan_request(s, plugin_cfg={"hardcoded_tmp_directory": cfgv}) for s in srcs3]) if d is not None else None
+            for i, s in enumerate(srcs3):
+                got = any(f[0] == "B108" for f in real3[i]["findings"])
+                res.case(("cfg-tmp-partial", json.dumps(cfgv), s), True)
+                if got != exps3[i] or real3[i]["errors"]:
+                    res.violation("B108 with a settings section that does not name tmp_dirs does not use the default directories (or raises)",
+                                  {"program": s.decode(), "settings": cfgv, "reported": got, "errors": real3[i]["errors"]})
+                if model3 is not None and "error" not in model3[i]:
+                    diff = C.compare_scan(real3[i], model3[i], C.blacklist_ids())
+                    if diff:
+                        res.break_("correspondence", {"program": s.decode(), "settings": cfgv, "diff": diff})
         # the pattern itself: RE_CANDIDATES vs documented pattern vs Lean matcher
         if d is not None:
             from bandit.plugins import general_hardcoded_password as ghp
